@@ -1,8 +1,17 @@
 // Correspondence harness for C08 (timing wheel): the REAL iora::core::TimingWheel driven by manual advance()
 // under a virtual steady clock (clock_gettime(CLOCK_MONOTONIC) is interposed inside this executable, DESIGN §3.1).
 // `start` calls the real start() and then joins the tick thread (stopTickThread), so the wheel is accepting,
-// _lastAdvanceTime is set exactly as in production, and every advance() is issued by the op list.
-// A 2 s watchdog turns a call that does not return (cascade livelock under _wheelMutex, F22) into the answer `hang`.
+// _lastAdvanceTime is set exactly as in production, and every advance() is issued by the op list.  While start() runs the
+// interposed timed wait never reports a time-out (g_hold_ticks), and `_running` is cleared before the hold is lifted, so the tick
+// thread cannot tick however long this process is descheduled.
+// The virtual epoch is a CONSTANT (kBaseNs = 30 days of uptime, op `base <ns>` moves it), so that absolute clock values - which
+// the saturating deadline of FC08c depends on - are the same in every run and known to the model driver and the monitor.
+// A watchdog turns a call that does not return (cascade livelock under _wheelMutex, F22) into the answer `hang`: it measures the
+// CPU time this process burns inside one op (3 s; a livelock spins, a descheduled process does not) plus a 60 s wall-clock limit
+// for a call that blocks without spinning.
+// `wreset` calls the real reset() (only on a STOPPED wheel: the code asserts it), `start` after it restarts the wheel.
+// `mtsched <threads> <n> <delay>`: <threads> threads call schedule() <n> times each at once (ids must be pairwise distinct and
+// pendingCount() must grow by the number of accepted calls), then every timer scheduled by the op is cancelled again.
 // `race` replays the F32 schedule deterministically: a scheduler thread is parked inside pthread_mutex_lock(&_wheelMutex)
 // (interposed) after it has passed the lock-free _accepting test, stop() runs to completion, then the thread is released.
 #include <algorithm>
@@ -13,6 +22,7 @@
 #include <cstdint>
 #include <cstdio>
 #include <cstring>
+#include <cerrno>
 #include <exception>
 #include <functional>
 #include <map>
@@ -41,7 +51,9 @@ using iora::core::TimerId;
 using std::chrono::milliseconds;
 
 // ---------------------------------------------------------------------------------------------- virtual steady clock
-static std::atomic<long long> g_base_ns{0};   // virtual epoch (real monotonic at start + 30 days: timed waits never expire)
+static constexpr long long kBaseNs = 2592000000000000LL;   // 30 days
+static std::atomic<long long> g_base_ns{kBaseNs};   // virtual epoch: a constant, never 0 (TimePoint{} means "unset" in the wheel)
+static std::atomic<bool> g_hold_ticks{false};       // start() is running: the tick thread's timed wait must not time out
 static std::atomic<long long> g_vns{0};       // virtual offset set by the op list
 static std::atomic<bool> g_virtual{false};
 static std::atomic<unsigned long> g_clock_reads{0};
@@ -78,11 +90,23 @@ extern "C" int pthread_cond_clockwait(pthread_cond_t* c, pthread_mutex_t* m, clo
   static Fn real = reinterpret_cast<Fn>(dlsym(RTLD_NEXT, "pthread_cond_clockwait"));
   if (clk == CLOCK_MONOTONIC && g_virtual.load(std::memory_order_acquire))
   {
+    // The only timed wait here is the tick thread's wait_for(tick) between start() and the join that follows at once.  While the
+    // `start` op holds the ticks, a time-out is never reported (the wait is repeated in 20 ms slices), so the thread cannot tick
+    // because this process was descheduled; the op clears `_running` BEFORE it lifts the hold, after which a time-out is harmless
+    // (the predicate is true, advance() is skipped) and only bounds the wait when stopTickThread()'s unlocked notify is lost.
+    while (g_hold_ticks.load(std::memory_order_acquire))
+    {
+      long long r0 = realNowNs(CLOCK_MONOTONIC) + 20000000LL;
+      struct timespec t0;
+      t0.tv_sec = r0 / 1000000000LL;
+      t0.tv_nsec = r0 % 1000000000LL;
+      int rc0 = real(c, m, clk, &t0);
+      if (rc0 != ETIMEDOUT) return rc0;
+    }
     long long vnow = g_base_ns.load(std::memory_order_relaxed) + g_vns.load(std::memory_order_relaxed);
     long long rel = abstime->tv_sec * 1000000000LL + abstime->tv_nsec - vnow;
-    // never shorter than 300 ms: the only timed wait here is the tick thread's wait_for(tick) between start() and the join that
-    // follows at once; it must not time out (and tick) just because this process was descheduled for a few milliseconds
-    if (rel < 300000000LL) rel = 300000000LL;
+    if (rel < 1000000LL) rel = 1000000LL;
+    if (rel > 50000000LL) rel = 50000000LL;
     long long r = realNowNs(CLOCK_MONOTONIC) + rel;
     struct timespec ts;
     ts.tv_sec = r / 1000000000LL;
@@ -117,7 +141,8 @@ extern "C" int pthread_mutex_lock(pthread_mutex_t* m)
 }
 
 // ---------------------------------------------------------------------------------------------- watchdog
-static std::atomic<long long> g_op_started_ns{0};   // 0 = idle
+static std::atomic<long long> g_op_started_ns{0};   // 0 = idle (real monotonic)
+static std::atomic<long long> g_op_started_cpu{0};  // process CPU time at the start of the op
 static void watchdog()
 {
   for (;;)
@@ -125,7 +150,12 @@ static void watchdog()
     struct timespec ts{0, 50000000};
     nanosleep(&ts, nullptr);
     long long s = g_op_started_ns.load(std::memory_order_acquire);
-    if (s != 0 && realNowNs(CLOCK_MONOTONIC) - s > 2000000000LL)
+    if (s == 0) continue;
+    long long cpu = realNowNs(CLOCK_PROCESS_CPUTIME_ID) - g_op_started_cpu.load(std::memory_order_acquire);
+    long long wall = realNowNs(CLOCK_MONOTONIC) - s;
+    // re-read: the op may have ended (and another begun) between the loads
+    if (g_op_started_ns.load(std::memory_order_acquire) != s) continue;
+    if (cpu > 3000000000LL || wall > 60000000000LL)
     {
       std::fflush(stdout);
       std::fputs("hang\n", stdout);
@@ -147,6 +177,7 @@ struct W
     w.reset();   // destructor: tick thread is never running here
     fired.clear();
     g_vns.store(0);
+    g_base_ns.store(kBaseNs);
     tickMs = tick;
     w = std::make_unique<TimingWheel>(milliseconds(tick), slots, levels);
   }
@@ -205,26 +236,31 @@ template <typename F> static std::string guarded(F&& f)
   catch (...) { return "throw unknown"; }
 }
 
-static bool parseInt(const std::string& s, long long& out)
+// clock values stay below 4e18 (epoch + offset never leaves int64); delays use the full range of std::chrono::milliseconds::rep
+// except LLONG_MIN (`-room` clamp bound and `-v` below)
+static bool parseInt(const std::string& s, long long& out, unsigned long long lim = 4000000000000000000ULL)
 {
   if (s.empty()) return false;
   bool neg = s[0] == '-';
   unsigned long long v = 0;
-  if (!vh::parseNat(neg ? s.substr(1) : s, v) || v > 4000000000000000000ULL) return false;
+  if (!vh::parseNat(neg ? s.substr(1) : s, v) || v > lim) return false;
   out = neg ? -static_cast<long long>(v) : static_cast<long long>(v);
   return true;
 }
 
 int main()
 {
-  g_base_ns.store(realNowNs(CLOCK_MONOTONIC) + 30LL * 86400 * 1000000000LL);
   g_virtual.store(true);
   std::thread(watchdog).detach();
   W st;
   st.reset(10, 8, 2);
   int rc = vh::runLines([&](const std::vector<std::string>& t) -> std::string {
     std::fflush(stdout);   // answers of earlier ops must survive a sanitizer abort inside this one
+    g_op_started_cpu.store(realNowNs(CLOCK_PROCESS_CPUTIME_ID), std::memory_order_release);
     g_op_started_ns.store(realNowNs(CLOCK_MONOTONIC), std::memory_order_release);
+    const unsigned long long kFull = 9223372036854775807ULL;
+    // absolute virtual clock values (epoch + offset) stay 10^15 ns (11 days) below TimePoint::max(): the code under test may add a tick
+    const long long kClockLimit = 9223372036854775807LL - 1000000000000000LL;
     std::string out = guarded([&]() -> std::string {
       long long a = 0, b = 0, c = 0;
       if (t.size() == 4 && t[0] == "reset" && parseInt(t[1], a) && parseInt(t[2], b) && parseInt(t[3], c))
@@ -235,12 +271,63 @@ int main()
       }
       if (t.size() == 1 && t[0] == "start")
       {
+        g_hold_ticks.store(true, std::memory_order_release);
         st.w->start();            // real start(): state, _accepting, _lastAdvanceTime, tick thread
-        st.w->stopTickThread();   // join it at once: virtual time has not moved, so it has not ticked
+        st.w->_running.store(false, std::memory_order_release);   // the tick thread will not call advance() from here on ...
+        g_hold_ticks.store(false, std::memory_order_release);     // ... so its timed wait may time out again
+        st.w->stopTickThread();   // join it at once: it has not ticked
         return "ok";
       }
-      if (t.size() == 2 && t[0] == "clk" && parseInt(t[1], a) && a >= 0)
+      if (t.size() == 2 && t[0] == "base" && parseInt(t[1], a, kFull) && a > 0)
       {
+        if (a > kClockLimit - g_vns.load()) return "bad-op";
+        g_base_ns.store(a);
+        return "ok";
+      }
+      if (t.size() == 1 && t[0] == "wreset")
+      {
+        // reset() asserts STOPPED; on any other state the call is a contract violation of the CALLER and is not issued
+        if (st.w->getState() != iora::core::TimingWheelState::STOPPED) return "not-stopped";
+        st.w->reset();
+        st.fired.clear();
+        return "ok";
+      }
+      if (t.size() == 4 && t[0] == "mtsched" && parseInt(t[1], a) && parseInt(t[2], b) && parseInt(t[3], c, kFull))
+      {
+        if (a < 1 || a > 8 || b < 1 || b > 50000) return "bad-op";
+        std::size_t before = st.w->pendingCount();
+        std::vector<std::vector<TimerId>> got(static_cast<std::size_t>(a));
+        std::atomic<int> ready{0};
+        std::atomic<bool> go{false};
+        std::vector<std::thread> thr;
+        for (long long k = 0; k < a; ++k)
+          thr.emplace_back([&, k]() {
+            auto& mine = got[static_cast<std::size_t>(k)];
+            mine.reserve(static_cast<std::size_t>(b));
+            ready.fetch_add(1);
+            while (!go.load(std::memory_order_acquire)) { }
+            for (long long i = 0; i < b; ++i) mine.push_back(st.w->schedule(milliseconds(c), []() {}));
+          });
+        while (ready.load() < a) { struct timespec ts{0, 100000}; nanosleep(&ts, nullptr); }
+        go.store(true, std::memory_order_release);
+        for (auto& x : thr) x.join();
+        std::vector<TimerId> all;
+        for (auto& v : got) for (TimerId id : v) if (id != iora::core::InvalidTimerId) all.push_back(id);
+        std::size_t accepted = all.size();
+        std::size_t after = st.w->pendingCount();
+        std::sort(all.begin(), all.end());
+        std::size_t dups = 0;
+        for (std::size_t i = 1; i < all.size(); ++i) if (all[i] == all[i - 1]) ++dups;
+        long long shortBy = static_cast<long long>(before + accepted) - static_cast<long long>(after);
+        all.erase(std::unique(all.begin(), all.end()), all.end());
+        std::size_t cancelled = 0;
+        for (TimerId id : all) if (st.w->cancel(id)) ++cancelled;
+        return "acc=" + std::to_string(accepted) + " dups=" + std::to_string(dups) + " pending_short=" + std::to_string(shortBy) +
+               " cancelled=" + std::to_string(cancelled) + " next=" + std::to_string(st.w->_nextId.load());
+      }
+      if (t.size() == 2 && t[0] == "clk" && parseInt(t[1], a, kFull) && a >= 0)
+      {
+        if (a > kClockLimit - g_base_ns.load()) return "bad-op";
         g_vns.store(a);
         return "ok";
       }
@@ -251,14 +338,15 @@ int main()
         bool ok = now == g_base_ns.load() + g_vns.load() && g_clock_reads.load() > 0;
         return ok ? "virtual" : "clock-not-interposed";
       }
-      if (t.size() == 2 && t[0] == "sched" && parseInt(t[1], a))
+      if (t.size() == 2 && t[0] == "sched" && parseInt(t[1], a, kFull))
         return std::to_string(st.sched(a));
       if (t.size() == 2 && t[0] == "cancel" && parseInt(t[1], a) && a >= 0)
         return st.w->cancel(static_cast<TimerId>(a)) ? "1" : "0";
-      if (t.size() == 3 && t[0] == "resched" && parseInt(t[1], a) && a >= 0 && parseInt(t[2], b))
+      if (t.size() == 3 && t[0] == "resched" && parseInt(t[1], a) && a >= 0 && parseInt(t[2], b, kFull))
         return st.w->reschedule(static_cast<TimerId>(a), milliseconds(b)) ? "1" : "0";
-      if (t.size() == 2 && t[0] == "adv" && parseInt(t[1], a) && a >= 0)
+      if (t.size() == 2 && t[0] == "adv" && parseInt(t[1], a, kFull) && a >= 0)
       {
+        if (a > kClockLimit - g_base_ns.load()) return "bad-op";
         g_vns.store(a);
         std::size_t n = st.w->advance();
         return "n=" + std::to_string(n) + " f=" + st.firedList(false);
@@ -277,7 +365,7 @@ int main()
         st.w->stop();
         return "ok";
       }
-      if (t.size() == 2 && t[0] == "race" && parseInt(t[1], a))
+      if (t.size() == 2 && t[0] == "race" && parseInt(t[1], a, kFull))
       {
         // F32 schedule: T passes `if (!_accepting) return`, is parked at lock(_wheelMutex); main runs stop() completely; T resumes.
         std::atomic<unsigned long long> got{~0ULL};
